@@ -188,7 +188,7 @@ def value_atom(fn_node, subject, value, sets=None, other=None):
     return atom
 
 
-def reaching_defs(g, at, name, with_params=False, with_aug=True):
+def reaching_defs(g, at, name, with_params=False, with_aug=True, edge_ok=None):
     """CFG nodes whose statement binds the local `name` (plain or tuple assignment) and from which `at` can be reached without passing another
     binding of `name`: the definitions that can supply the value `name` has at `at`"""
     import ast as _ast
@@ -205,7 +205,7 @@ def reaching_defs(g, at, name, with_params=False, with_aug=True):
     out = []
     for d in defs:
         others = [x for x in defs if x is not d]
-        if at.id in g.reach([d], avoid=others, include_src=False): out.append(d)
+        if at.id in g.reach([d], avoid=others, include_src=False, edge_ok=edge_ok) and (edge_ok is None or d.id in g.reach([g.entry], edge_ok=edge_ok)): out.append(d)
     return out
 
 
@@ -216,3 +216,58 @@ def value_of_def(defnode, name):
     for t, v in assign_pairs(defnode.ast):
         if getattr(t, 'id', None) == name: return v
     return None
+
+
+class Unknown(Exception):
+    """concrete_eval met a construct it does not interpret"""
+
+
+_SAFE = {'isinstance': isinstance, 'repr': repr, 'str': str, 'type': type, 'int': int, 'float': float, 'complex': complex, 'bool': bool, 'len': len, 'abs': abs,
+         'list': list, 'dict': dict, 'tuple': tuple, 'set': set, 'None': None, 'True': True, 'False': False}
+
+
+def concrete_eval(e, env):
+    """evaluate a small side-effect-free expression taken from the analysed source on concrete values (env: name -> value): constants, names,
+    attribute reads of ast nodes, tuples, and/or/not, comparisons, isinstance/type/repr/str/len/abs, str.startswith/endswith.  Anything else
+    raises Unknown.  Used to ask "what does this guard decide for value v?" without running any code of the repository."""
+    import ast as _ast
+    ev = lambda x: concrete_eval(x, env)
+    if isinstance(e, _ast.Constant): return e.value
+    if isinstance(e, _ast.Name):
+        if e.id in env: return env[e.id]
+        if e.id in _SAFE: return _SAFE[e.id]
+        raise Unknown
+    if isinstance(e, _ast.Attribute):
+        b = ev(e.value)
+        if isinstance(b, _ast.AST) and e.attr in type(b)._fields: return getattr(b, e.attr)
+        raise Unknown
+    if isinstance(e, (_ast.Tuple, _ast.List)): return tuple(ev(x) for x in e.elts)
+    if isinstance(e, _ast.BoolOp):
+        r = None
+        for v in e.values:
+            r = ev(v)
+            if isinstance(e.op, _ast.And) and not r: return r
+            if isinstance(e.op, _ast.Or) and r: return r
+        return r
+    if isinstance(e, _ast.UnaryOp) and isinstance(e.op, _ast.Not): return not ev(e.operand)
+    if isinstance(e, _ast.IfExp): return ev(e.body) if ev(e.test) else ev(e.orelse)
+    if isinstance(e, _ast.Compare) and len(e.ops) == 1:
+        l, r = ev(e.left), ev(e.comparators[0]); op = e.ops[0]
+        try:
+            if isinstance(op, _ast.Lt): return l < r
+            if isinstance(op, _ast.LtE): return l <= r
+            if isinstance(op, _ast.Gt): return l > r
+            if isinstance(op, _ast.GtE): return l >= r
+            if isinstance(op, _ast.Eq): return l == r
+            if isinstance(op, _ast.NotEq): return l != r
+            if isinstance(op, _ast.Is): return l is r
+            if isinstance(op, _ast.IsNot): return l is not r
+            if isinstance(op, _ast.In): return l in r
+            if isinstance(op, _ast.NotIn): return l not in r
+        except TypeError: raise Unknown
+    if isinstance(e, _ast.Call) and not e.keywords:
+        if isinstance(e.func, _ast.Name) and e.func.id in _SAFE and callable(_SAFE[e.func.id]): return _SAFE[e.func.id](*[ev(a) for a in e.args])
+        if isinstance(e.func, _ast.Attribute) and e.func.attr in ('startswith', 'endswith'):
+            b = ev(e.func.value)
+            if isinstance(b, str): return getattr(b, e.func.attr)(*[ev(a) for a in e.args])
+    raise Unknown
